@@ -213,3 +213,30 @@ extend("C13", "A-TYPEFORM, A-LEGACY, A-REFNAMES: abstract interpretation of the 
        "the SSA fold-shape rule remains only as a fallback for a fold outside the decoder.")
 extend("C16", "B-FLAG flag-to-Config wiring table; multi-file naming members", "each option flag's variable is the one its Config field is loaded from; titled roots / --schema-root-type with two files keep each root under its own name.")
 extend("C19", "", "the typed decode goes into a local shadow type; reserved-name members (types named Plain/Value/Raw, properties named additional_properties/plain/raw/value).")
+
+# ---- round 4 additions
+extend("C02", "A-OVERREJ, A-SHADOW, skip-marker clause of A-TAG", "a reject branch attributable to a keyword rejects no more than the keyword (operator not weaker than the schema's, a rounded fractional limit "
+       "paired with the operator that makes it exact); the additional-properties block enumerates the declared keys from the shadow type of the decoded value; no tag is the decoders' skip marker or ends in an "
+       "empty option (known finding: a required property named -); anyOf of a typed primitive and an untyped branch stays interface{}; width-hint formats keep the bare type.")
+extend("C05", "", "the lossy-limit rule is semantic: direction of rounding and operator must pair up (value < ceil(b) = value <= floor(b)); nullable positions in the quick tier. The int64() truncation of fractional "
+       "bounds was repaired (a5d792c).")
+extend("C06", "", "defaulted strings: the default assignment precedes every length/pattern check in both methods.")
+extend("C03", "", "a $ref with a sibling type/description is still generated from its target; width-hint format members are left to C02/C08.")
+extend("C04", "A-TYPEFORM", "a referenced base that also requires a sibling's property (listed first) keeps both presence checks; the decoder hands over a two-element type list as written (clause armed by "
+       "interpreting MergeTypes on both orders).")
+extend("C08", "", "integer enums with a width-hint format keep the int carrier.")
+extend("C09", "", "a string default is never assigned from a raw string literal.")
+extend("C10", "", "B-QUALIFIED covers every success return of the file branch; B-PARENT additionally requires addFile(<qualified>, same schema) to dominate any generator built with an unqualified name; "
+       "allOf branch in another file with fragment-only references into its own file.")
+extend("C11", MULTI, "an allOf branch in another file whose properties refer by fragment into that file; a base that also requires a sibling's property; anyOf branch with properties and additionalProperties.")
+extend("C12", "B-PARENT", "a referenced file is registered under its qualified name, so nested relative references do not depend on the working directory.")
+extend("C13", "", "a two-element type list decodes in the written order (armed clause).")
+extend("C14", "A-SHADOW, A-TAG on reserved-name members", "schema names equal to identifiers the emitted code uses for itself (Plain, raw, value, AdditionalProperties, -): the file type-checks, tags bind, and the "
+       "additional-properties block reflects over the shadow type. Identifierize first-rune / non-decimal-numeral defects repaired (80589b9).")
+extend("C16", "", "anyOf branch with properties and additionalProperties under --only-models imports nothing validation-only.")
+extend("C17", "A-TAGPAR", "every field's json and yaml tags bind the same key or both skip, and no yaml tag carries an option yaml.v3 refuses.")
+extend("C18", "", "hostile positions: a property next to allOf/anyOf, a composition branch itself, an anyOf branch of array items in a definition (two known findings: empty/non-primitive enum in a primitive allOf "
+       "branch); typed enums with non-primitive values repaired (67cc053).")
+extend("C19", "A-TAGPAR (yaml option part)", "the decoded local is never initialised from the receiver; no yaml tag option yaml.v3 panics on; mapstructure.Decode of a possibly nil raw map into a typed map is "
+       "guarded (known finding: null with typed additionalProperties panics).")
+extend("C20", "", "a definition with a cross-package property that is also an allOf branch keeps the package qualifier on the second visit (regression of an earlier repair, fixed by 8fc97c4).")
